@@ -33,9 +33,9 @@ func init() {
 }
 
 func c09Run(x *core.Ctx) {
-	ns := 100
+	ns := 200
 	if !x.Quick() {
-		ns = 2500
+		ns = 6000
 	}
 	r := x.Rand(uint64(x.Shard))
 	rn := &model.Renderer{}
